@@ -389,6 +389,24 @@ def rel_c10(c):
     return out, n
 
 
+def with_boolfix(t):
+    """the type with bool_union_fix inserted after bool in every Union that
+    has bool and not yet bool_union_fix"""
+    if not isinstance(t, list) or not t:
+        return t
+    if t[0] == 'union':
+        ms = [with_boolfix(m) for m in t[1]]
+        if ['bool'] in ms and ['boolfix'] not in ms:
+            i = ms.index(['bool'])
+            ms = ms[:i + 1] + [['boolfix']] + ms[i + 1:]
+        return ['union', ms]
+    if t[0] == 'list':
+        return ['list', with_boolfix(t[1])]
+    if t[0] == 'dict':
+        return ['dict', t[1], with_boolfix(t[2])]
+    return t
+
+
 def has_dup_keys(doc):
     for n in doc['h']:
         if n['k'] == 'm':
@@ -443,15 +461,33 @@ def rel_c13(c):
                 ('flow', 0, True, False), ('flow', 0, False, True),
                 ('block', 1, True, True)]
     base = None
+    base_err = None
     dup = has_dup_keys(c['doc'])
+    # bool_union_fix next to bool in a Union is documented to change nothing
+    fixed_dt = with_boolfix(c['dt'])
+    if fixed_dt != c['dt']:
+        variants = variants + [('boolfix', 0, False, False)]
     for style, flavor, extra, rev in variants:
         if rev and dup:
             continue        # a repeated key makes the order meaningful
         doc = reverse_maps(c['doc']) if rev else c['doc']
-        o = loadreplay.observe(c, style=style, flavor=flavor, extra=extra,
-                               doc=doc)
+        if style == 'boolfix':
+            cc = dict(c)
+            cc['dt'] = fixed_dt
+            o = loadreplay.observe(cc, style='flow')
+        else:
+            o = loadreplay.observe(c, style=style, flavor=flavor, extra=extra,
+                                   doc=doc)
         n += 1
         d = cmp_outcome(c, o, flavor, order_free=True)
+        # a rejected document is rejected with the same class of error under
+        # every rendering and annotation flavour
+        if d is None and o['outcome'] == 'ERR':
+            if base_err is None:
+                base_err = o['errclass']
+            elif o['errclass'] != base_err:
+                d = 'rejected with %s, the flow-style load with %s' % (
+                    o['errclass'], base_err)
         if d is None and not rev and base is not None and \
                 o['outcome'] == 'VAL' and o['value'] != base:
             d = 'value differs from the flow-style load: %s vs %s' % (
